@@ -59,6 +59,8 @@ Lemma len_slice l a b : 0 <= a <= b -> b <= len l -> len (slice l a b) = b - a.
 Proof. intros. rewrite slice_take_drop by lia. rewrite len_take; [lia|]. rewrite len_drop; lia. Qed.
 Lemma firstn_add (n p : nat) : forall k : list A, firstn (n + p) k = firstn n k ++ firstn p (skipn n k).
 Proof. induction n as [|n IH]; intro k; [reflexivity|]. destruct k; cbn; [now rewrite firstn_nil|]. f_equal. apply IH. Qed.
+Lemma len_slice_le l a b : 0 <= a <= b -> len (slice l a b) <= b - a.
+Proof. intros. rewrite slice_take_drop by lia. unfold take, len. rewrite firstn_length. lia. Qed.
 Lemma slice_app_adj l a b c : 0 <= a <= b -> b <= c -> slice l a b ++ slice l b c = slice l a c.
 Proof. intros. rewrite !slice_take_drop by lia.
   replace (drop b l) with (drop (b - a) (drop a l)) by (rewrite drop_drop by lia; f_equal; lia).
